@@ -243,29 +243,53 @@ def check(index, ctx):
     counts = {sum(1 for n in p if n in incs) for p in paths}
     ctx.require(counts == {1} and good_inc and not other_step, "R2", "forward: step advances by exactly one per call",
                 f"{len(paths)} paths, each with one `self.step += 1`", f"`self.step += 1` executes {sorted(counts)} times depending on the path (or step is written otherwise)", fwd.loc())
-    sched = [n for n in fcfg.nodes if n.kind == "test" and isinstance(n.ast, ast.If) and "step" in loads(n.ast.test) and isinstance(n.ast.test, ast.Compare)
-             and isinstance(n.ast.test.left, ast.BinOp) and isinstance(n.ast.test.left.op, ast.Mod)]
-    if len(sched) != 1:
-        ctx.undecided("R2", "forward: schedule test", f"expected one `self.step % self.update_weights_every == 0` test, found {len(sched)}", fwd.loc())
+    from ..guards import atoms as g_atoms, cfg_guards, implies, oriented
+
+    def is_phase(e):
+        return isinstance(e, ast.BinOp) and isinstance(e.op, ast.Mod) and self_attr(e.left) == "step" and self_attr(e.right) == "update_weights_every"
+
+    def classify(t):
+        """D = 'a recomputation is due': self.step % self.update_weights_every == 0."""
+        if is_phase(t):
+            return ("D", False)  # truthiness of the remainder
+        o = oriented(t, is_phase)
+        if o is not None and isinstance(o[2], ast.Constant) and o[2].value == 0 and not isinstance(o[2].value, bool):
+            if o[1] is ast.Eq:
+                return ("D", True)
+            if o[1] in (ast.NotEq, ast.Gt):
+                return ("D", False)
+        return None
+
+    mods = [n for n in fcfg.nodes if n.kind == "test" and isinstance(n.ast, ast.If) and any(isinstance(x, ast.BinOp) and isinstance(x.op, ast.Mod) and "step" in loads(x) for x in ast.walk(n.ast.test))]
+    sched = [n for n in mods if "D" in g_atoms(n.ast.test, classify)]
+    if len(sched) != 1 or len(mods) != 1:
+        if len(mods) == 1 and not sched:
+            ctx.violated("R2", "forward: schedule test form", f"schedule test `{norm_text(mods[0].ast.test)}` is not `self.step % self.update_weights_every == 0`", fwd.loc(mods[0].ast))
+        else:
+            ctx.undecided("R2", "forward: schedule test", f"expected one `self.step % self.update_weights_every == 0` test, found {len(sched)}", fwd.loc())
         return
     st = sched[0]
     t = st.ast.test
-    form = self_attr(t.left.left) == "step" and self_attr(t.left.right) == "update_weights_every" and isinstance(t.ops[0], ast.Eq) and \
-        isinstance(t.comparators[0], ast.Constant) and t.comparators[0].value == 0
-    ctx.require(form, "R2", "forward: schedule test form", f"`{norm_text(t)}`", f"schedule test `{norm_text(t)}` is not `self.step % self.update_weights_every == 0`", fwd.loc(st.ast))
+    due = [lbl for lbl in (True, False) if implies([(t, lbl)], classify, "D", True)]
+    idle = [lbl for lbl in (True, False) if implies([(t, lbl)], classify, "D", False)]
+    if len(due) != 1 or len(idle) != 1:
+        ctx.undecided("R2", "forward: schedule test", f"`{norm_text(t)}` mixes the schedule with other conditions: neither edge means exactly 'recomputation due'", fwd.loc(st.ast))
+        return
+    due_lbl, idle_lbl = str(due[0]), str(idle[0])
+    ctx.ok("R2", "forward: schedule test form", f"`{norm_text(t)}`: edge {due_lbl} means step % update_weights_every == 0", fwd.loc(st.ast))
     ctx.require(all(fcfg.dominates(st, n) for n in incs), "R2", "forward: schedule is tested before step advances", "test dominates the increment",
                 "`self.step += 1` can execute before the schedule test: recomputation would shift to calls k-1, 2k-1, ...", fwd.loc(st.ast))
     writers_pa = sorted({m for m, _ in state.get("prvs_alpha", []) if m != "reset"})
     ctx.require(len(writers_pa) == 1, "R2", "prvs_alpha has a single writer (the optimiser)", f"written by {writers_pa}", f"prvs_alpha is written by {writers_pa}", cls.loc())
     opt = writers_pa[0] if writers_pa else None
-    true_nodes = {n for n in fcfg.stmt_nodes() if (st, "True") in fcfg.guards_of(n)}
-    false_nodes = {n for n in fcfg.stmt_nodes() if (st, "False") in fcfg.guards_of(n)}
+    true_nodes = {n for n in fcfg.stmt_nodes() if (st, due_lbl) in fcfg.guards_of(n)}
+    false_nodes = {n for n in fcfg.stmt_nodes() if (st, idle_lbl) in fcfg.guards_of(n)}
     calls_opt = lambda nodes: any(isinstance(x, ast.Call) and self_attr(x.func) == opt for n in nodes for e in own_exprs(n) for x in ast.walk(e))
     ctx.require(opt is not None and calls_opt(true_nodes) and not calls_opt(false_nodes), "R2", "forward: optimiser runs exactly on scheduled calls",
-                f"{opt}() called on the True branch only", f"{opt}() is not called exactly on the branch where step % update_weights_every == 0", fwd.loc(st.ast))
+                f"{opt}() called on the due branch only", f"{opt}() is not called exactly on the branch where step % update_weights_every == 0", fwd.loc(st.ast))
     # reuse path: everything reachable from the False edge
     reach = set()
-    work = [m for m, l in fcfg.succ[st] if l == "False"]
+    work = [m for m, l in fcfg.succ[st] if l == idle_lbl]
     while work:
         n = work.pop()
         if n in reach:
